@@ -17,8 +17,9 @@ ARGK = {
 
 
 # clauses of TraceContinuum.tla beyond the statements of C13 / C14 (which name annotators, units, categories and bounds):
-# what happens to best_window_size under container operations is modelled, a departure is a NOTE
-BEYOND = {"ObsBws"}
+# best_window_size under container operations and the derived statistics (max units per annotator, average number of units per
+# annotator, category weights) are modelled; a departure is a NOTE
+BEYOND = {"ObsBws", "ObsDerived"}
 
 
 def bws_of(c):
@@ -52,8 +53,16 @@ def proj(c):
             wok = 1
         except Exception:
             wok = 2
-    derived = {"nann": safe("num_annotators", lambda: int(c.num_annotators), -1),
-               "maxper": safe("max_num_annotations_per_annotator", lambda: int(c.max_num_annotations_per_annotator), -1), "weights": weights, "wok": wok}
+    def soft(fn, default):       # accessors beyond the statements: a failure there is not an observation problem
+        try:
+            return fn()
+        except Exception:
+            return default
+    avg = soft(lambda: float(c.avg_num_annotations_per_annotator), None) if anns else None
+    avgok = 1 if (avg is not None and avg == avg and abs(avg) < 2000) else 0
+    derived = {"avgok": avgok, "avgnum": int(round(avg * 1000000)) if avgok else 0,
+               "nann": safe("num_annotators", lambda: int(c.num_annotators), -1),
+               "maxper": soft(lambda: int(c.max_num_annotations_per_annotator), -1), "weights": weights, "wok": wok}
     return {"derived": derived, "ann": anns, "units": units, "cats": safe("categories", lambda: list(c.categories), []), "lo": float(lo), "hi": float(hi),
             "n": safe("num_units", lambda: int(c.num_units), -1), "len": safe("len()", lambda: len(c), -1), "bool": safe("bool()", lambda: 1 if c else 0, -1),
             "bws": safe("best_window_size", lambda: bws_of(c), INF_BWS), "views": views, "problems": problems}
@@ -125,6 +134,7 @@ class Encoder:
                 "cats": [self.l(x) for x in p["cats"]], "lo": self.t(p["lo"]), "hi": self.t(p["hi"]),
                 "n": p["n"], "len": p["len"], "bool": p["bool"], "bws": p["bws"],
                 "derived": {"nann": p["derived"]["nann"], "maxper": p["derived"]["maxper"], "wok": p["derived"]["wok"],
+                            "avgok": p["derived"]["avgok"], "avgnum": p["derived"]["avgnum"],
                             "weights": [[self.l(k), w] for k, w in p["derived"]["weights"]]},
                 "views": [[self.a(a), [self.unit(u) for u in vs]] for a, vs in p["views"]]}
 
